@@ -147,6 +147,9 @@ same bytes); `LYD_PRINT_WITHSIBLINGS` is always set -/
 structure POpts where
   tagAll : Bool := false
   tagImpl : Bool := false
+  /-- source variant, not an API option: `lyb_print_metadata` has the with-defaults annotation block (read off the source:
+  `Generated.LybTree.lybWdAnnot`; `false` once the repair of finding F330 is applied) -/
+  wdAnnot : Bool := lybWdAnnot
   deriving Repr, DecidableEq
 
 /-! ## printer -/
@@ -175,7 +178,7 @@ def isDefaultVal (S : LSchema) (n : DNode) : Bool := (S.dflts n.sid).contains n.
 
 /-- `wd_mod != NULL` in `lyb_print_metadata` -/
 def wdTagged (o : POpts) (S : LSchema) (n : DNode) : Bool :=
-  n.isTerm && S.wd.isSome && ((n.flags.dflt && (o.tagAll || o.tagImpl)) || (o.tagAll && isDefaultVal S n))
+  o.wdAnnot && n.isTerm && S.wd.isSome && ((n.flags.dflt && (o.tagAll || o.tagImpl)) || (o.tagAll && isDefaultVal S n))
 
 /-- `lyb_print_node_header`: metadata count, the with-defaults annotation, node flags -/
 def headerOps (o : POpts) (S : LSchema) (n : DNode) : Option (List Op) :=
